@@ -531,7 +531,7 @@ def _replay_infer_import(inp):
             return bool(self.items)
 
         def py__getattribute__(self, name, name_context=None, analysis_errors=True):
-            log.append(('getattr', name, analysis_errors))
+            log.append(('getattr', name))
             return _VS('attr', inp['attr'])
 
         def __eq__(self, other):
@@ -557,10 +557,10 @@ def _replay_infer_import(inp):
     if not inp['values'] or fin is None:
         exp, exp_log = _VS('from', inp['values']), []
     elif inp['attr']:
-        exp, exp_log = _VS('attr', inp['attr']), [('getattr', fin, False)]
+        exp, exp_log = _VS('attr', inp['attr']), [('getattr', fin)]
     else:
         exp = _VS('sub', inp['sub'])
-        exp_log = [('getattr', fin, False), ('follow', tuple(inp['import_path']) + (fin,), inp['level'])]
+        exp_log = [('getattr', fin), ('follow', tuple(inp['import_path']) + (fin,), inp['level'])]
     return {'LOG': log, 'EXPECTED': exp, 'EXPECTED_LOG': exp_log}, out
 
 
